@@ -20,6 +20,13 @@ def jobs(tier):
                      assumes=["CMSG_DATA(c) redefined as (unsigned char *)(c) + sizeof (struct cmsghdr) (equivalent to glibc's flexible-array form, which CBMC mis-models)", "at most one control message fits the exactly-sized control buffer", "the control message lies inside the buffer offered (Linux adjusts cmsg_len on truncation)"],
                      bounds=f"caller capacity {nfd}; kernel answer: " + ("no control message" if kind == 0 else f"one non-SCM_RIGHTS message with {pay} payload bytes" if kind == 1 else f"SCM_RIGHTS with {pay} descriptor(s)") + "; MSG_CTRUNC symbolic; bytes read -1..4",
                      shape=f"capacity {nfd}, kind {kind}, payload {pay}", cost=1 + nfd))
+    J.append(Job(name="send.do_writing", group="C15.send", harness="harness/C15_send.c", env=["assert_stubs.c"], checks="assert", unwind=6, timeout=600, extra=["--object-bits", "12"],
+                 encodes=["do_writing"], stubs=["socket writes = symbolic partial writes / EAGAIN with ghost offset log", "outgoing queue = one message", "auth = fd-negotiated flag, no encoding"],
+                 bounds="header 16..40, body 0..24 bytes, 0..3 descriptors, arbitrary resumption offset, up to 4 successful partial writes of any sizes per do_writing call (then EAGAIN)", shape="partial writes of one message"))
+    J.append(Job(name="pending_fd_timer", group="C15.pending_timer", harness="harness/C09_pending.c", defines={"P": 0, "OP": 7}, real=["dbus/dbus-list.c"],
+                 env=["assert_stubs.c", "mem.c", "pool_lock.c", "msg_model.c", "msg_build.c"], checks="assert", unwind=7, unwindset=["strcmp.0:48"], timeout=300,
+                 encodes=["check_pending_fds_cb", "pending_unix_fds_timeout_cb"], stubs=["DBusTimeout = record", "pending-descriptor count = symbolic"],
+                 bounds="old and new pending-descriptor counts 0..1000", shape="pending-fd timer step"))
     import importlib.util, os
     sp = importlib.util.spec_from_file_location("vfjobs_x_C11", os.path.join(os.path.dirname(__file__), "C11.py")); m = importlib.util.module_from_spec(sp); m.Job = Job; sp.loader.exec_module(m)
     lj = m.loader_job(1, "C15.fd_count", skip_findings=True); lj.name = "loader.fd_count.F1"; J.append(lj)
